@@ -28,6 +28,7 @@ func c02(c *Ctx) {
 		R.Check("C02.confine", "C02.confine/"+shortFn(f), "", shortFn(f)+" runs only on the Run goroutine", conf[f], "handler atomicity is the basis of the per-handler argument")
 	}
 
+	gossipEntryHasNoSnapshot(c, a, "C02.ownobs", "signatures that arrive before the node's own observation are kept for whichever guardian set is current when they arrive; the set is pinned only by the own observation (an entry pinned by the first gossiped signature loses the signatures of members added by a later set update, and quorum of the set the node signs for is never recognised)")
 	// sinks in handleObservation
 	var sinks []site
 	for _, callee := range []*ssa.Function{a.store, a.bVAA, a.reportQuorum} {
